@@ -139,6 +139,83 @@ def py_reader_layer(ctx, n_scripts, bufsizes):
                     "broken": "correspondence Model.CodedCpp.arun vs _binary.py CodedInputStream"})
 
 
+def typed_layer(ctx, n_pkgs, n_streams, max_cuts):
+    """Generated readers on every prefix of reference streams: an error must be reported, and what was
+    delivered before it (NDJSON lines, flushed per value) must be a prefix of the complete output."""
+    import codec
+    import ymodel
+    from vlib import coq_bytes
+    pkgs = codec.build_packages(ctx, n_pkgs, "t", cpp=True, ndjson=True, gen_kwargs={"n_protocols": 2, "steps": (2, 3)})
+    rng = ctx.rng
+    hcases = []
+    try:
+        for gp in pkgs:
+            cpp = not getattr(gp, "cpp_failed", False)
+            if not cpp:
+                ctx.report("cpp-compile:" + gp.name, "generated C++ does not compile for an accepted package",
+                           {"model": gp.pkg.yaml(), "error": gp.cpp_err[-2000:]})
+            for pname, steps in gp.pkg.protocols:
+                for _ in range(n_streams):
+                    ws = ymodel.gen_writes(rng, steps, finite=True, size=2, max_items=3)
+                    stream = ymodel.enc_header(gp.schemas_[pname]) + ymodel.enc_steps(steps, ws)
+                    full = gp.py_call({"proto": pname, "fin": "binary", "fout": "ndjson", "data": stream.hex(), "mode": "copy"})
+                    if not full["ok"]:
+                        ctx.report("typed:python:complete-stream-refused", "python refused a complete stream: " + full.get("err", "")[:150],
+                                   {"model": gp.pkg.yaml(), "namespace": gp.pkg.namespace, "protocol": pname, "stream_hex": stream.hex()})
+                        continue
+                    full_lines = full["out"].split("\n")
+                    hl = len(ymodel.enc_header(gp.schemas_[pname]))
+                    cuts = set(range(hl, len(stream))) if len(stream) - hl <= max_cuts else set(
+                        rng.sample(range(hl, len(stream)), max_cuts))
+                    cuts |= {0, 3, 7, hl - 1}
+                    cfull = None
+                    if cpp:
+                        c = gp.cpp_call(pname, "binary", "ndjson", stream)
+                        cfull = c["out"].decode(errors="replace").split("\n") if c["ok"] else None
+                        if not c["ok"]:
+                            ctx.report("typed:c++:complete-stream-refused", "c++ refused a complete stream: " + c["err"][:150],
+                                       {"model": gp.pkg.yaml(), "namespace": gp.pkg.namespace, "protocol": pname, "stream_hex": stream.hex()})
+                    for cut in sorted(cuts):
+                        pre = stream[:cut]
+                        r = gp.py_call({"proto": pname, "fin": "binary", "fout": "ndjson", "data": pre.hex(), "mode": "copy"})
+                        obs = [("python", r["ok"], r["out"].split("\n"), full_lines, r.get("err", ""))]
+                        if cpp and cfull is not None and (cut % 2 == 0 or len(cuts) < 40):
+                            c = gp.cpp_call(pname, "binary", "ndjson", pre)
+                            obs.append(("c++", c["ok"], c["out"].decode(errors="replace").split("\n"), cfull, c["err"]))
+                        ctx.count("typed_cut_region", "header" if cut < hl else "body")
+                        for lang, okk, lines, ref, err in obs:
+                            delivered = [x for x in lines if x]
+                            is_prefix = delivered == [x for x in ref if x][:len(delivered)]
+                            ctx.case(("typed-cut", lang, pname, pre), sample={"layer": "typed", "reader": lang, "protocol": pname,
+                                     "cut": cut, "of": len(stream), "reported_error": not okk, "values_delivered": max(0, len(delivered) - 1)})
+                            ctx.count("typed_error_kind:" + lang, (err.strip().split(":")[0] or "ok")[:40] if not okk else "ACCEPTED")
+                            if okk or not is_prefix or (lang == "c++" and "rc" in err):
+                                what = "completed normally" if okk else "delivered values that were never written"
+                                ctx.report("typed:%s:%s" % (lang, "accepted-truncated" if okk else "wrong-values-before-error"),
+                                           "%s reader %s on a stream cut at byte %d of %d (protocol %s)" % (lang, what, cut, len(stream), pname),
+                                           {"layer": "typed", "reader": lang, "model": gp.pkg.yaml(), "namespace": gp.pkg.namespace,
+                                            "protocol": pname, "stream_hex": stream.hex(), "cut": cut, "delivered": delivered[-3:]})
+                        if len(hcases) < 400:
+                            hcases.append((gp.schemas_[pname], steps, pre))
+        # the model refuses every strict prefix too (ties Model.Binary.dec_protocol to what was just observed)
+        shards = [hcases[k:k + 100] for k in range(0, len(hcases), 100)]
+
+        def ev(ix_sh):
+            ix, sh_ = ix_sh
+            items = ["(%s, [%s], %s, false)" % (coq_bytes(s.encode()), "; ".join(ymodel.coq_step(x) for x in st), coq_bytes(d))
+                     for s, st, d in sh_]
+            body = ("From Coq Require Import List NArith ZArith.\nFrom YV Require Import Base.Wire Model.Binary Model.CodedCases Model.BinaryCases.\n"
+                    "Import ListNotations.\nOpen Scope N_scope.\nDefinition cases : list hcase := [\n " + ";\n ".join(items) +
+                    "\n].\nDefinition MM := Eval vm_compute in mismatches hcase_ok cases.\nPrint MM.\n")
+            return Ctx.parse_nat_list(ctx.coq_eval("tc_%d" % ix, body, timeout=1500), "MM")
+        with ThreadPoolExecutor(max_workers=8) as ex:
+            for mm in ex.map(ev, enumerate(shards)):
+                if mm:
+                    raise RuntimeError("Model.Binary.dec_protocol accepts a strict prefix (contradicts theorem truncated_refused?)")
+    finally:
+        codec.stop_packages(pkgs)
+
+
 def run(ctx):
     ctx.build_repo(need_hook=False)
     ok, failing, log = ctx.coq_props("C16")
@@ -152,6 +229,7 @@ def run(ctx):
     quick = ctx.tier == "quick"
     cpp_reader_layer(ctx, 40 if quick else 400, [1, 2, 3, 4, 5, 7, 8, 10, 11, 16, 17, 64])
     py_reader_layer(ctx, 30 if quick else 300, [8, 9, 10, 11, 16, 17, 64])
+    typed_layer(ctx, 1 if quick else 5, 2 if quick else 5, 60 if quick else 400)
 
 
 def replay(ctx, path):
